@@ -29,11 +29,15 @@ def run(ctx):
     ctx.rule("R10.6", "helper commands run by a .do (redo-stamp, redo-always, redo-ifchange, redo-ifcreate) do not commit verdict-relevant fields of the target's own row ahead of the builder's result transaction (or an intent marker covers the unfinished build)")
     ctx.rule("R10.5", "success path order of durable effects: a target replacement (rename) is preceded by a committed intent for that target that the next run's override detection takes into account")
 
-    for nm in ("state::ProcessState::write", "state::ProcessTransaction::write"):
+    # the writer funnel: whatever executes record-writing SQL (the primitive: ProcessState::write, or
+    # ProcessTransaction::write itself when the primitive is inlined) is private and reachable only through
+    # ProcessTransaction::write, which is private too (txn.writer_funnel; no function name but the door is fixed)
+    members, problems = txn.writer_funnel(prog, ctx.cg)
+    for nm in [k for k, _ in members] + ([txn.WRITE] if txn.WRITE not in [k for k, _ in members] else []):
         f = prog.fns.get(nm)
         ctx.ob("R10.1", "visibility|%s" % nm, f is not None and f["vis"] not in ("pub", "crate"), where=f["line"] if f else "", detail="visibility: %s" % (f["vis"] if f else "missing"))
-    callers = [c for c in ctx.cg.callers_of("state::ProcessState::write") if c != "<indirect>"]
-    ctx.ob("R10.1", "who-calls-ProcessState::write", callers == ["state::ProcessTransaction::write"], detail="callers: %s" % callers)
+    ctx.ob("R10.1", "who-calls-ProcessState::write", not problems, detail="record-writing SQL is executed by %s and reached only through ProcessTransaction::write" % [k for k, r in members if r == "primitive" or k == members[0][0]] if not problems else
+           "; ".join(t for _, t in problems))
     wcallers = sorted(c for c in ctx.cg.callers_of("state::ProcessTransaction::write") if c != "<indirect>")
     allowed = {"state::File::from_name", "state::File::save", "state::File::zap_deps1", "state::File::zap_deps2", "state::File::add_dep"}
     ctx.ob("R10.1", "who-calls-ProcessTransaction::write", set(wcallers) <= allowed and len(wcallers) >= 5, detail="callers: %s" % wcallers)
@@ -65,7 +69,8 @@ def run(ctx):
     excl = anchors.bodies_calling(prog, r"std::fs::OpenOptions::create_new|std::fs::File::create_new")
     ctx.ob("R10.3", "no-lock-by-existence", not excl, detail="no create_new/O_EXCL file creation anywhere (%d bodies)" % len(prog.bodies) if not excl else "exclusive file creation: %s" % [b.key for b in excl])
     lm = prog.one(r"state::LockManager::open")
-    ok = bool(BA.of(lm).calls(r"std::fs::OpenOptions::open")) and not BA.of(lm).calls(r"std::fs::OpenOptions::(truncate|create_new)")
+    # `.truncate(false)` / `.create_new(false)` spell the default out: only a flag that is (or may be) set counts
+    ok = bool(BA.of(lm).calls(r"std::fs::OpenOptions::open")) and not _flag_setters(lm, r"std::fs::OpenOptions::(truncate|create_new)")
     ctx.ob("R10.3", "positive-control|LockManager::open-found", ok, where=lm.span, detail="the lock file is opened read/write/create, never truncated or created exclusively")
 
     SS = anchors.start_self(prog)
@@ -158,6 +163,25 @@ def run(ctx):
             "every later run classify the freshly built file as a manual override ('you modified it; skipping') until the user deletes it. "
             "Order: %s; override predicate reads %s; the pre-fork transaction writes %s on the target's record%s" % (
                 " -> ".join(seq), sorted(pred_fields), sorted(written), "" if saves_target else " and does not save it")))
+
+
+def _flag_setters(body, rx):
+    """Calls of a boolean builder setter matching rx whose argument is not the literal `false`
+    (a literal `true`, or any computed value)."""
+    ba = BA.of(body)
+    out = []
+    for i in ba.calls(rx):
+        t = body.blocks[i]["term"]
+        a = t["args"][1] if len(t["args"]) > 1 else None
+        c = op_const(a) if a is not None else None
+        if c is None and a is not None and op_local(a) is not None:
+            d = ba.single_def(op_local(a))
+            if d and d[0] == "stmt" and d[3]["k"] == "use":
+                c = op_const(d[3]["op"])
+        if c is not None and c.get("bool") is False:
+            continue
+        out.append(i)
+    return out
 
 
 VERDICT_FIELDS = r"state::File\.(changed_runid|checked_runid|failed_runid|stamp|is_generated|csum)"
